@@ -10,6 +10,8 @@ mod cfg;
 mod json;
 mod mon;
 mod mon_hist;
+mod dsp;
+mod mon_band;
 mod mon_delay;
 mod mon_set;
 mod mon_simd;
@@ -38,6 +40,8 @@ fn monitors() -> Vec<Box<dyn Monitor>> {
         Box::new(mon_set::Setters),
         Box::new(mon_warp::Warp),
         Box::new(mon_delay::Delay),
+        Box::new(mon_band::Ir),
+        Box::new(mon_band::Band),
         Box::new(mon_simd::Simd),
         Box::new(mon_thr::Threads),
         Box::new(mon_stream::Chunking),
